@@ -161,7 +161,9 @@ def verify(contract, registry, variant=None):
         ex = Exec(fsrc, contract, registry, obls, prefix=fsrc.qual + ('' if variant is None else '[%s]' % variant))
         base_prefix = ex.prefix
         # vacuity guard: the precondition must be satisfiable
-        obls.append(Obligation(base_prefix + '/cover.precondition-satisfiable', list(st.pc), z3.BoolVal(False),
+        hint = getattr(contract, 'cover_hint', None)
+        obls.append(Obligation(base_prefix + '/cover.precondition-satisfiable',
+                               list(st.pc) + ([tobool(hint(K, a))] if hint is not None else []), z3.BoolVal(False),
                                'cover', fsrc.line))
         watermark = _cell[0]
         mod_ids = {r.id for r in contract.modifies(K, a)}
